@@ -27,7 +27,7 @@ def gen(rng, ctx):
         return {"lib": libnets.pick(rng, ctx.tier) if ctx.gen_index else ["c17", "s27", "c432", "mux_4"][ctx.index % 4], "seed": rng.getrandbits(32), "inputs": rng.random() < 0.5, "kind": "lib", "via": "graph", "order": "lib"}
     ni = rng.randint(1, 5)
     ng = rng.randint(1, 8 if not big else 14)
-    cd = G.rand_circuit(rng, ni, ng, max_fanin=4, p_const=0.2)
+    cd = G.rand_circuit(rng, ni, ng, max_fanin=4, p_const=0.2, allow_x=rng.random() < 0.4)
     flag = rng.random() < 0.5
     kind = "plain"
     if not flag and rng.random() < 0.4:
@@ -63,7 +63,7 @@ def gen(rng, ctx):
             continue
         if r < 0.22:
             n = f"dk{i}"
-            cd["nodes"].append([n, rng.choice(["0", "1"]), False])
+            cd["nodes"].append([n, rng.choice(["0", "1", "x"]), False])
             drivers.append(n)
             dead.append(n)
             continue
@@ -117,6 +117,8 @@ def check(case, ctx):
     c = G.build(cg, cd, case["via"])
     before = Net.of(c)
     ctx.count(f"class:{case['kind']}")
+    if before.has_x():
+        ctx.count("with_x_constant")
     ctx.count(f"inputs={flag}")
     ctx.count(f"insertion_order:{case.get('order')}")
     roots = set(before.outputs) | {n for n, t in before.types.items() if t == "bb_input"}
@@ -189,5 +191,5 @@ def check(case, ctx):
 
 
 def gates(counters, table, tier):
-    need = ["insertion_order:shuffled", "class:pins", "class:pins+dead_pin_net", "class:plain", "inputs=True", "inputs=False", "has_dead_logic", "has_unloaded_input", "has_input_loaded_only_by_dead_logic", "has_dead_bb_output"]
+    need = ["insertion_order:shuffled", "class:pins", "class:pins+dead_pin_net", "with_x_constant", "class:plain", "inputs=True", "inputs=False", "has_dead_logic", "has_unloaded_input", "has_input_loaded_only_by_dead_logic", "has_dead_bb_output"]
     return [f"{k} seen {counters.get(k, 0)} times" for k in need if counters.get(k, 0) < 10]
